@@ -89,12 +89,7 @@ def recordMacro : Nat → List String → Nat → List MTok → AM (List MTok)
     | some t@⟨.dir "Macro", _⟩ => recordMacro f args (depth + 1) (acc ++ [.tok t])
     | some t@⟨.dir "EndMacro", _⟩ =>
       if depth = 0 then pure acc else recordMacro f args (depth - 1) (acc ++ [.tok t])
-    | some ⟨.dir "Entropy", loc⟩ => recordMacro f args depth (acc ++ [.entropy loc])
-    | some t@⟨.label .global v, _⟩ =>
-      match args.idxOf? v with
-      | some i => recordMacro f args depth (acc ++ [.arg i])
-      | none => recordMacro f args depth (acc ++ [.tok t])
-    | some t => recordMacro f args depth (acc ++ [.tok t])
+    | some t => recordMacro f args depth (acc ++ [slotOf args t])
 
 def macroParams : Nat → Nat → List String → AM (List String)
   | 0, _, _ => do fail .fuel ((← get).loc.getD {})
@@ -108,14 +103,7 @@ def macroParams : Nat → Nat → List String → AM (List String)
       macroParams f k (acc ++ [v])
     | some t => fail .unexpected t.loc
 
-def skipIf : Nat → Nat → AM Unit
-  | 0, _ => do fail .fuel ((← get).loc.getD {})
-  | f + 1, level => do
-    match ← nextF f with
-    | none => eoiErr
-    | some ⟨.dir "If", _⟩ => skipIf f (level + 1)
-    | some ⟨.dir "EndIf", _⟩ => if level = 1 then pure () else skipIf f (level - 1)
-    | some _ => skipIf f level
+def skipIf (f : Nat) (level : Nat) : AM Unit := fun s => skipIfG (opsF f) f level s
 
 def metaPairs : Nat → List (String × String) → AM (List (String × String))
   | 0, _ => do fail .fuel ((← get).loc.getD {})
